@@ -201,6 +201,7 @@ int main (void)
       free (s); g_object_unref (b);
     }
     printf ("\n");
+    fflush (hc_out);     /* one line per case on the wire: after a sanitizer abort the first case without output is the culprit */
   }
   fflush (hc_out);
   return 0;
